@@ -217,7 +217,7 @@ def valid_tasks(tier, seed, oracles, post=None, with_edits=True, layouts=(), bas
     tasks.append(dict(base, kind="repeat"))
     for i in range(8):
         tasks.append(dict(base, kind="crosstags", part=i, parts=8))
-    rparts = 4 if tier == "quick" else 16
+    rparts = 16 if tier == "quick" else 48
     for i in range(rparts):
         tasks.append(dict(base, kind="requires", part=i, parts=rparts, one=3 if tier == "quick" else 4, two=2 if tier == "quick" else 3))
     if with_edits:
